@@ -219,6 +219,25 @@ def check(case):
             return ('unstable:%s' % typekey(case),
                     '%s on keys %r showed %r: equal keys %d, %d swapped' % (
                         src, case['keys'], full, a, b))
+    # the same loop inside the body of another loop over the same sequence
+    # that is itself sorted or reversed: the order shown does not depend on
+    # what an enclosing block did with its copy
+    if n >= 2:
+        from DocumentTemplate import HTML
+        inner = source(case, reverse='none', batch=None)
+        for outer in ('reverse', 'sort=i/cmp/desc', 'sort=i reverse'):
+            nsrc = '<dtml-in s %s%s size=1 orphan=0>%s</dtml-in>' % (
+                'mapping ' if case['mapping'] else '', outer, inner)
+            els, _ = build(case)
+            try:
+                out = HTML(nsrc)(s=els, spec=spec_text(case), absf=absf)
+                got = [int(x) for x in out.split(',')[:-1]]
+            except Exception as e:
+                got = repr(e)
+            if got != full:
+                return ('nested-same-sequence:%s' % outer.split('=')[0],
+                        '%s on keys %r showed %r for the inner loop, alone '
+                        'it shows %r' % (nsrc, case['keys'], got, full))
     # reverse = exact reverse of what would otherwise be shown
     if case['reverse'] != 'none':
         try:
